@@ -371,5 +371,6 @@ var paramPhases = map[string]paramPhase{
 }
 
 var sameBlockSets = map[string][]string{
+	"C01": {"swap_in_p1_usdc_atom_L", "swap_out_p1_atom_usdc_D", "join_p1_all_t1", "exit_p1_10pct_lp1", "feed_ext_liquidity_p1_deep", "perp_open_long_t3_x5", "fee_tx_uatom"},
 	"C02": {"join_p2_all_t1", "join_p2_all_lp2", "exit_p2_half_lp1", "swap_in_p2_elys_usdc_D", "fee_tx_uelys", "fee_tx_uatom", "join_p1_all_t1", "exit_p1_10pct_lp1"},
 }
